@@ -1,7 +1,9 @@
 """C04 plan."""
 from plan import R, D, stages
+import fuzzstage
 
 PLAN = dict(
+    extra={"thorough": [fuzzstage.diff_stage(1, "C04")]},
     **stages(
         quick=[(R, "quick", 16), (D, "small", 16)],
         thorough=[(R, "thorough", 16), (D, "quick", 16)],
